@@ -371,6 +371,9 @@ FIXED_EXPRS = [
     G([('rep', S(0), 50, 50), ('rep', S(0), 50, 75)]),                     # mn-chain shared, diff chain new
     G([('rep', S(0), 10, 75), ('rep', S(0), 20, 85)]),                     # diff chains share a prefix
     G([('rep', S(0), 10, 75), ('rep', S(1), 10, 75)]),
+    G([('rep', S(0), 0, 51), S(3), ('rep', S(0), 0, 52)]),                 # opt helpers (4,0,t,x) and (4,1,t,x): same a, target
+    G([('rep', S(0), 52, 52), S(3), ('rep', S(0), 53, 53)]),
+    G([('rep', S(0), 0, 50), S(3), ('rep', S(0), 0, 51)]),
     G([('rep', G([S(0), S(1)]), 50, 52)]), G([('rep', G([S(0)], [S(1)]), 50, 51)]),
     G([('rep', G([('plus', S(0)), S(1)]), 51, 51)]),
     G([('rep', G([('rep', S(0), 50, 50)]), 50, 50)]),
@@ -386,7 +389,7 @@ def compile_stream(ctx):
     rng = ctx.rng
     wide = 3 if ctx.widen else 1
     shared = CC.shared_cases(rng, ctx.scale(14, 150) * wide)
-    exprs = (list(FIXED_EXPRS) + [c[2] for c in shared if not c[5]]
+    exprs = (list(FIXED_EXPRS) + [c[2] for c in shared if not c[5]] + CC.factor_cases(rng, ctx.scale(5, 40) * wide)
              + [CC.gen_expr(rng) for _ in range(ctx.scale(70, 900) * wide)])
     cases, meta = [], []
     for e in exprs:
